@@ -1,8 +1,11 @@
 import SSVerif.Model.AcmodBuf
+import SSVerif.Model.AcmodFe
 import Driver.Util
-/-! driver sub-command `c07`: replays a decoder call pattern (with the front-end responses the real run
-    met) on the acmod / live-feature index model and prints the counters and the windows handed to the
-    searches in the format of `harness/h_c07.c` -/
+/-! driver sub-command `c07`: replays a decoder call pattern on the acmod / live-feature index model and prints the
+    counters and the windows handed to the searches in the format of `harness/h_c07.c`.  Two ways of standing in for
+    the front end: `p` / `pfull` / `end` take the responses the real run met (M5 alone, `Model/AcmodBuf.lean`); `ps` /
+    `ends` take only the number of samples of the call and run c06's front-end model inside the decoder-level step
+    (`Model/AcmodFe.lean`), printing per front-end call the room offered, the frames yielded and the samples left -/
 namespace Driver.C07
 open SSVerif.AcmodBuf Driver
 
@@ -10,6 +13,9 @@ structure D where
   s : St
   win : Nat
   fix : Bool
+  cfg : SSVerif.FeBuf.Cfg
+  fe : SSVerif.FeBuf.Fe Nat
+  pos : Nat
   nS : Nat   -- searched entries already printed
   nA : Nat   -- alignment passes already printed
 
@@ -57,18 +63,37 @@ def parseFull (w : String) : Option (List FullResp) :=
 
 def noSkip : Nat → Bool := fun _ => false
 
+def showCalls (l : List (Nat × Nat × Nat)) : String :=
+  if l.isEmpty then "fe=-" else "fe=" ++ ",".intercalate (l.reverse.map fun c => s!"{c.1}:{c.2.1}:{c.2.2}")
+
+/-- after a step of the composed model: the new acoustic-model and front-end state, the front-end calls of the step -/
+def emitS (d : D) (x : SSVerif.AcmodFe.FS) : D × String :=
+  let r := emit { d with fe := x.fe, pos := x.pos } x.st
+  (r.1, showCalls x.calls ++ (if x.feBad then " FEBAD=1 " else " ") ++ r.2)
+
 def step (d : D) (ws : List String) : D × String :=
   match ws with
   | ["init", w, c, f] =>
     match w.toNat?, c.toNat? with
     | some w, some c =>
-      let d' : D := { s := St.init c, win := w, fix := f != "0", nS := 0, nA := 0 }
+      let d' : D := { d with s := St.init c, win := w, fix := f != "0", nS := 0, nA := 0 }
       emit d' d'.s
     | _, _ => (d, "bad-op")
   | ["start", c] =>
     match c.toNat? with
-    | some c => emit { d with nS := 0, nA := 0 } (startUtt { d.s with cmnFrames := c, cmnMoved := false })
+    | some c =>
+      emit { d with nS := 0, nA := 0, fe := SSVerif.FeBuf.start, pos := 0 } (startUtt { d.s with cmnFrames := c, cmnMoved := false })
     | none => (d, "bad-op")
+  | ["cfg", a, b] =>
+    match a.toNat?, b.toNat? with
+    | some a, some b => ({ d with cfg := ⟨a, b, true⟩ }, "cfg ok")
+    | _, _ => (d, "bad-op")
+  | ["ps", ns, n] =>
+    match n.toNat? with
+    | some n =>
+      emitS d (SSVerif.AcmodFe.stepS d.cfg d.fix d.win noSkip ⟨d.s, d.fe, [], d.pos, false, []⟩ (.process (ns != "0") n)).1
+    | none => (d, "bad-op")
+  | ["ends"] => emitS d (SSVerif.AcmodFe.decEndS d.cfg d.fix d.win noSkip ⟨d.s, d.fe, [], d.pos, false, []⟩).1
   | ["p", ns, rs] =>
     match parseResps rs with
     | some rs => emit d (SSVerif.AcmodBuf.step d.fix d.win noSkip d.s (.process (ns != "0") rs))
@@ -86,6 +111,6 @@ def step (d : D) (ws : List String) : D × String :=
   | _ => (d, "bad-op")
 
 def main : IO Unit :=
-  runLoop step { s := St.init 0, win := 3, fix := true, nS := 0, nA := 0 }
+  runLoop step { s := St.init 0, win := 3, fix := true, cfg := ⟨410, 160, true⟩, fe := SSVerif.FeBuf.start, pos := 0, nS := 0, nA := 0 }
 
 end Driver.C07
